@@ -66,6 +66,8 @@ class Profile:
         self.proc_points = 0.0           # processors with injection points (KF-C05a)
         self.p_case_variant = 0.15       # custom names differing only in letter case
         self.p_twin = 0.15               # a type with exactly the field layout of another one (convertible pointer types)
+        self.p_generic = 0.08            # two instantiations of ONE generic type (G[int], G[string]): default names that differ in
+        #                                  the type arguments only
         self.n_bare = (0, 1)             # types without wx.Base: no methods at all (or only unexported ones), zero-size or not
         self.p_sealed = 0.15             # an interface whose only method is unexported ("sealed")
         self.p_name_placeholder = 0.1    # a by-name point whose name comes from configuration: wire:"${key}" / "${nokey:name}"
@@ -119,6 +121,10 @@ def gen_scenario(rng, sid, pf):
                 t["methods"].append(("F%d" % m, False))
             if rng.random() < 0.3:
                 t["methods"].append(("G%d" % m, True))
+        if (sid + ti) % 4 == 0:
+            # a method WITH parameters: a func point names a method, it does not say what the method takes (never combined
+            # with `returns`, which would call it)
+            t["methods"].append(("H0", False))
         types.append(t)
     nprocs = rng.randint(*pf.n_procs)
     for _ in range(nprocs):
@@ -161,6 +167,14 @@ def gen_scenario(rng, sid, pf):
             bt["runner"] = rng.choice("POU") if rng.random() < 0.7 else None
             bt["closer"] = rng.random() < 0.5
         types.append(bt)
+    if pf.p_generic and rng.random() < pf.p_generic:
+        base = len(types)
+        gi = [i for i in range(nif) if sealed[i] and rng.random() < 0.6]
+        gl = rng.random() < pf.p_lazy
+        for arg in ("int", "string"):
+            types.append({"ifaces": list(gi), "naming": False, "qual": False, "primary": False, "lazy": gl, "aps": False, "init": False,
+                          "runner": None, "closer": False, "proc": None, "methods": [], "fields": [], "cfields": [],
+                          "bare": "sized", "const_name": None, "generic": (base, arg)})
     crowd = rng.random() < pf.p_crowd
     crowd_type = None
     if crowd:
@@ -211,6 +225,9 @@ def gen_scenario(rng, sid, pf):
 
     def regname(ci):
         c = comps[ci]
+        g = types[c["type"]].get("generic")
+        if g and not c["name"]:
+            return "%s/G%d_%d[%s]" % (PKG, sid, g[0], g[1])
         return c["name"] if c["name"] else "%s/T%d_%d" % (PKG, sid, c["type"])
 
     # fields
@@ -281,6 +298,8 @@ def gen_scenario(rng, sid, pf):
                 rets = None
                 if hasret or rng.random() < 0.2:
                     rets = rng.sample(RETS + ["*"], rng.randint(1, 2))
+                if mn.startswith("H"):
+                    rets = None
                 p["sel"] = ("func", mn, rets)
                 if types[x]["ifaces"] and rng.random() < 0.5:
                     p["target"] = ("iface", rng.choice(types[x]["ifaces"]))
@@ -630,6 +649,18 @@ def gen_go(scn):
             mk = {"int": "v := %s(0)", "[]string": "v := %s{}", "chan struct{}": "v := make(%s)", "map[string]int": "v := %s{}"}[t["nonstruct"]] % tn
             out.append('func init() {\n\twx.Ctors["%s"] = func(b wx.Base) any { %s; return &v }\n}' % (tn, mk))
             continue
+        if t.get("generic"):
+            base, arg = t["generic"]
+            gn = "G%d_%d" % (sid, base)
+            if ti == base:
+                out.append("type %s[X any] struct{ V X }" % gn)
+                for i in t["ifaces"]:
+                    out.append("func (t *%s[X]) %s() {}" % (gn, mname(i)))
+                if t["lazy"]:
+                    out.append("func (t *%s[X]) LazyInit() {}" % gn)
+            out.append("type %s = %s[%s]" % (tn, gn, arg))
+            out.append('func init() {\n\twx.Ctors["%s"] = func(b wx.Base) any { return &%s{} }\n}' % (tn, tn))
+            continue
         if t.get("bare"):
             out.append("type %s struct {%s}" % (tn, " X int " if t["bare"] == "sized" else ""))
             for i in t["ifaces"]:
@@ -694,6 +725,8 @@ def gen_go(scn):
         for m, hasret in t["methods"]:
             if hasret:
                 out.append('func (t *%s) %s() string { return t.b.Ret("%s") }' % (tn, m, m))
+            elif m.startswith("H"):
+                out.append("func (t *%s) %s(x int, ys ...string) {}" % (tn, m))
             else:
                 out.append("func (t *%s) %s() {}" % (tn, m))
         out.append('func init() {\n\twx.Ctors["%s"] = func(b wx.Base) any {\n\t\tt := &%s{b: b}\n\t\t%s\n\t\treturn t\n\t}\n}'
@@ -706,6 +739,9 @@ def regname_of(scn, ci):
     f = scn["types"][c["type"]].get("foreign")
     if f and not c["name"]:
         return "%s/%s" % (f[1], f[2])
+    g = scn["types"][c["type"]].get("generic")
+    if g and not c["name"]:
+        return "%s/G%d_%d[%s]" % (PKG, scn["id"], g[0], g[1])
     return c["name"] if c["name"] else "%s/%s" % (PKG, go_type_name(scn["id"], c["type"]))
 
 
